@@ -41,6 +41,10 @@ pub enum ShaderRef {
     /// different sources and outputs, identical cost (used to make concurrent calls finish at the
     /// same instant in stress processes).
     Twin { seed: u64, variant: u32 },
+    /// A tiny shader behind `kb` kilobytes of comment made of 3-byte characters (after `pad` ASCII
+    /// bytes): in the embedded SOURCE literal two of three byte offsets fall inside a character,
+    /// so any fixed-size cut of the text lands inside one for at least two of the pads 0, 1, 2.
+    Dense { kb: u32, pad: u32 },
     /// Bulk: `structs` storage structs with `members` vec4 members each (megabytes of bindings).
     Bulk { structs: u32, members: u32 },
     /// Literal source (used by minimised replay files).
@@ -59,6 +63,11 @@ impl ShaderRef {
             ShaderRef::Twin { seed, variant } => {
                 format!("{}\nconst TWIN_ID: u32 = {variant}u;\n", gen_shader(*seed, 1))
             }
+            ShaderRef::Dense { kb, pad } => format!(
+                "// {}{}\n@group(0) @binding(0) var<uniform> tint: vec4<f32>;\n@fragment\nfn fs_main() -> @location(0) vec4<f32> {{\n    return tint;\n}}\n",
+                "x".repeat(*pad as usize),
+                "語".repeat(*kb as usize * 1024 / 3)
+            ),
             ShaderRef::Inline { source } => source.clone(),
         }
     }
@@ -71,6 +80,7 @@ impl ShaderRef {
             ShaderRef::Deep { shape, depth, variant } => format!("deep:{shape}/{depth}/{variant}"),
             ShaderRef::Bulk { structs, members } => format!("bulk:{structs}x{members}"),
             ShaderRef::Twin { seed, variant } => format!("twin:{seed:x}/{variant}"),
+            ShaderRef::Dense { kb, pad } => format!("dense:{kb}k+{pad}"),
             ShaderRef::Inline { source } => format!("inline:{}B", source.len()),
         }
     }
